@@ -99,6 +99,26 @@ def handle (op : String) (args : List String) : Option String :=
         let b : M.Zoned := ⟨mkDT y2 s2 f2, o2⟩
         s!"{M.Zoned.cmp a b} {showOpt toString (M.Zoned.partial_cmp a b)} {M.Zoned.eq a b}"
       | _ => bad)
+  -- second review (audit2): derived comparisons of NaiveDateTime, `a - b` operator impls
+  | "ax.dtord", [y1, s1, f1, y2, s2, f2] => some (match ints? [y1, s1, f1, y2, s2, f2] with
+      | some [y1, s1, f1, y2, s2, f2] =>
+        let a := mkDT y1 s1 f1
+        let b := mkDT y2 s2 f2
+        s!"{M.NaiveDT.cmp a b} {showOpt toString (M.NaiveDT.partial_cmp a b)} {M.NaiveDT.eq a b} {M.NaiveDT.lt a b} {showDT (M.NaiveDT.max a b)}"
+      | _ => bad)
+  | "ax.ddiffop", [y1, y2] => some (match ints? [y1, y2] with
+      | some [y1, y2] => showRes showDelta (M.Date.sub_date ⟨y1⟩ ⟨y2⟩) | _ => bad)
+  | "ax.dtdiffop", [y1, s1, f1, y2, s2, f2] => some (match ints? [y1, s1, f1, y2, s2, f2] with
+      | some [y1, s1, f1, y2, s2, f2] => showRes showDelta (M.NaiveDT.sub_dt (mkDT y1 s1 f1) (mkDT y2 s2 f2))
+      | _ => bad)
+  | "ax.zdiffop", [y1, s1, f1, o1, y2, s2, f2, o2] => some (match ints? [y1, s1, f1, o1, y2, s2, f2, o2] with
+      | some [y1, s1, f1, o1, y2, s2, f2, o2] =>
+        showRes showDelta (M.Zoned.sub_zoned ⟨mkDT y1 s1 f1, o1⟩ ⟨mkDT y2 s2 f2, o2⟩)
+      | _ => bad)
+  | "ax.zdiffref", [y1, s1, f1, o1, y2, s2, f2, o2] => some (match ints? [y1, s1, f1, o1, y2, s2, f2, o2] with
+      | some [y1, s1, f1, o1, y2, s2, f2, o2] =>
+        showRes showDelta (M.Zoned.sub_zoned_ref ⟨mkDT y1 s1 f1, o1⟩ ⟨mkDT y2 s2 f2, o2⟩)
+      | _ => bad)
   | _, _ => none
 
 end Chrono.Drv.DateArithExt
